@@ -34,10 +34,10 @@ type c16Scenario struct {
 }
 
 type c16Reader struct {
-	member int
-	closed int
+	member   int
+	closed   int
 	closeErr error
-	st     *c16State
+	st       *c16State
 }
 
 func (r *c16Reader) Read(p []byte) (int, error) { return 0, errors.New("not read") }
@@ -51,18 +51,18 @@ func (r *c16Reader) Descriptor() ociregistry.Descriptor {
 }
 
 type c16State struct {
-	sc        c16Scenario
-	logs      []string
-	ctxs      [2]context.Context
-	started   [2]bool
-	returned  [2]bool
-	succeeded [2]bool
-	readers   [2]*c16Reader
+	sc              c16Scenario
+	logs            []string
+	ctxs            [2]context.Context
+	started         [2]bool
+	returned        [2]bool
+	succeeded       [2]bool
+	readers         [2]*c16Reader
 	callerCancelled bool
-	problems  []string
-	resultOK  bool
-	resultMember int
-	done      bool
+	problems        []string
+	resultOK        bool
+	resultMember    int
+	done            bool
 }
 
 func (st *c16State) log(s string) { st.logs = append(st.logs, s) }
@@ -110,13 +110,21 @@ func (st *c16State) funcs(i int) *ociregistry.Funcs {
 		return ociregistry.Descriptor{Size: int64(100 + i)}, nil
 	}
 	return &ociregistry.Funcs{
-		GetBlob_: func(ctx context.Context, repo string, d ociregistry.Digest) (ociregistry.BlobReader, error) { return rd(ctx) },
+		GetBlob_: func(ctx context.Context, repo string, d ociregistry.Digest) (ociregistry.BlobReader, error) {
+			return rd(ctx)
+		},
 		GetBlobRange_: func(ctx context.Context, repo string, d ociregistry.Digest, o0, o1 int64) (ociregistry.BlobReader, error) {
 			return rd(ctx)
 		},
-		GetManifest_:     func(ctx context.Context, repo string, d ociregistry.Digest) (ociregistry.BlobReader, error) { return rd(ctx) },
-		ResolveBlob_:     func(ctx context.Context, repo string, d ociregistry.Digest) (ociregistry.Descriptor, error) { return ds(ctx) },
-		ResolveManifest_: func(ctx context.Context, repo string, d ociregistry.Digest) (ociregistry.Descriptor, error) { return ds(ctx) },
+		GetManifest_: func(ctx context.Context, repo string, d ociregistry.Digest) (ociregistry.BlobReader, error) {
+			return rd(ctx)
+		},
+		ResolveBlob_: func(ctx context.Context, repo string, d ociregistry.Digest) (ociregistry.Descriptor, error) {
+			return ds(ctx)
+		},
+		ResolveManifest_: func(ctx context.Context, repo string, d ociregistry.Digest) (ociregistry.Descriptor, error) {
+			return ds(ctx)
+		},
 	}
 }
 
